@@ -20,7 +20,7 @@ open Genshi
 structure St where
   ctx : Ctx
   ph : Heap
-  deriving Repr, Inhabited
+  deriving DecidableEq, Repr, Inhabited
 
 /-- iterator objects: list iterators and (suspended) directive generators -/
 inductive It where
@@ -43,14 +43,24 @@ inductive It where
   | stripRun (prev : TEv) (src : It)     -- StripDirective._generate with its one-event look-behind
   | attrsNew (spec : AttrsSpec) (src : It)   -- AttrsDirective._generate, not started
   | macroNew (m : Macro) (arg : Option Val)   -- the generator a `py:def` function returned, not started
+  | genfNew (x : Str) (src body : Expr)   -- `_ensure(result)` over the generator object of a generator function,
+                                         -- not started: the first `next()` evaluates `src` and calls `iter()`
+  | genexp (x : Str) (items : List Atom) (body : Expr)
+                                         -- `_ensure(result)` over the generator object of `(body for x in …)`:
+                                         -- `body` runs at each `next()`, in the render's context as it is then
+  | forNextG (var : Str) (x : Str) (items : List Atom) (gbody : Expr) (scope : Frame) (body : List TEv)
+      (rest : List Dir)                  -- ForDirective iterating over such a generator object: the next item is
+                                         -- computed after `ctxt.pop()`
+  | forRunG (var : Str) (x : Str) (items : List Atom) (gbody : Expr) (scope : Frame) (body : List TEv)
+      (rest : List Dir) (inner : It)
   | dead
-  deriving Repr, Inhabited
+  deriving DecidableEq, Repr, Inhabited
 
 inductive PullOut where
   | item (t : TEv)
   | done
   | err (e : Err)
-  deriving Repr, Inhabited
+  deriving DecidableEq, Repr, Inhabited
 
 def sDomain : Str := ['_', 'i', '1', '8', 'n', '.', 'd', 'o', 'm', 'a', 'i', 'n']
 def sContext : Str := ['_', 'i', '1', '8', 'n', '.', 'c', 'o', 'n', 't', 'e', 'x', 't']
@@ -253,19 +263,15 @@ def applyDirs (h ph : Heap) (c : Ctx) (stream : It) : List Dir → Except Err (C
 
 /-! ## directive generators -/
 
-/-- `iter(value)` -/
-def iterItems : Val → Option (List Atom)
-  | .list xs => some xs
-  | .atom (.str s) => some (s.map fun ch => .str [ch])
-  | _ => none
-
 /-- `py:with`: the assignments are evaluated one after the other in the frame already pushed -/
 def evalBinds (c : Ctx) : List (Str × Expr) → Except (Ctx × Err) Ctx
   | [] => .ok c
   | (n, e) :: rest =>
     match eval c.frames e with
     | .error er => .error (c, er)
-    | .ok v => evalBinds (c.setTop n v) rest
+    | .ok v =>
+      -- a generator object bound to a name can be consumed from several places: outside the model
+      if v.isGenerator then .error (c, .unmodelled) else evalBinds (c.setTop n v) rest
 
 /-- positional arguments first, then the default expressions (evaluated in the caller's context at call
     time); a parameter with neither: `_eval_expr(None, …)` raises AttributeError.  Extra arguments are dropped. -/
@@ -282,7 +288,7 @@ structure PullRes where
   st : St
   it : It
   out : PullOut
-  deriving Repr, Inhabited
+  deriving DecidableEq, Repr, Inhabited
 
 /-- `next(it)`; the template heap is only read -/
 def pull (h : Heap) : Nat → St → It → PullRes
@@ -312,6 +318,29 @@ def pull (h : Heap) : Nat → St → It → PullRes
       match eval st.ctx.frames e with
       | .error er => ⟨st, .dead, .err er⟩
       | .ok v =>
+        match v with
+        | .genx x items gbody =>
+          -- `iter(generator)` is the generator; `stream = list(stream)`; then the loop asks for the first item
+          (match remaining h st.ph src with
+           | none => ⟨st, .dead, .err .unmodelled⟩
+           | some body => pull h fuel st (.forNextG var x items gbody [] body rest))
+        | .genf x gsrc gbody =>
+          -- the generator of a generator function: its `for x in src` starts at the first `next()`, i.e. here,
+          -- after `stream = list(stream)`
+          (match remaining h st.ph src with
+           | none => ⟨st, .dead, .err .unmodelled⟩
+           | some body =>
+             match eval st.ctx.frames gsrc with
+             | .error er => ⟨st, .dead, .err er⟩
+             | .ok (.atom a) =>
+               (match iterItems (.atom a) with
+                | none => ⟨st, .dead, .err .typeError⟩
+                | some items => pull h fuel st (.forNextG var x items gbody [] body rest))
+             | .ok (.list xs) => pull h fuel st (.forNextG var x xs gbody [] body rest)
+             | .ok (.opaque _) | .ok (.macro _) | .ok (.genfn _ _ _ _) | .ok (.lam _ _) => ⟨st, .dead, .err .typeError⟩
+             | .ok _ => ⟨st, .dead, .err .unmodelled⟩)
+        | .gen0 _ | .gen1 _ _ => ⟨st, .dead, .err .unmodelled⟩
+        | _ =>
         match iterItems v with
         | none => ⟨st, .dead, .err .typeError⟩
         | some items =>
@@ -333,6 +362,43 @@ def pull (h : Heap) : Nat → St → It → PullRes
       | .done =>
         -- `ctxt.pop()`: the frame that comes off is the scope dict with whatever was stored in it meanwhile
         pull h fuel { r.st with ctx := r.st.ctx.pop } (.forNext var xs (r.st.ctx.frames.headD scope) body rest)
+    | .forNextG _ _ [] _ _ _ _ => ⟨st, .dead, .done⟩
+    | .forNextG var x (a :: as) gbody scope body rest =>
+      -- `next(generator)`: the body of the nested scope runs NOW — `x` is its local, every other name is looked
+      -- up in the Context (`__data__` of the globals of the eval that created the generator) as it is now
+      match eval ([(x, .atom a)] :: st.ctx.frames) gbody with
+      | .error er => ⟨st, .dead, .err er⟩
+      | .ok v =>
+        if v.isGenerator then ⟨st, .dead, .err .unmodelled⟩
+        else
+          let c1 := st.ctx.push (Frame.set scope var v)
+          match applyDirs h st.ph c1 (.lst body) rest with
+          | .error er => ⟨{ st with ctx := c1 }, .dead, .err er⟩
+          | .ok (c2, inner) => pull h fuel { st with ctx := c2 } (.forRunG var x as gbody scope body rest inner)
+    | .forRunG var x xs gbody scope body rest inner =>
+      let r := pull h fuel st inner
+      match r.out with
+      | .item t => ⟨r.st, .forRunG var x xs gbody scope body rest r.it, .item t⟩
+      | .err er => ⟨r.st, .dead, .err er⟩
+      | .done =>
+        pull h fuel { r.st with ctx := r.st.ctx.pop } (.forNextG var x xs gbody (r.st.ctx.frames.headD scope) body rest)
+    | .genfNew x gsrc gbody =>
+      match eval st.ctx.frames gsrc with
+      | .error er => ⟨st, .dead, .err er⟩
+      | .ok (.atom a) =>
+        (match iterItems (.atom a) with
+         | none => ⟨st, .dead, .err .typeError⟩
+         | some items => pull h fuel st (.genexp x items gbody))
+      | .ok (.list xs) => pull h fuel st (.genexp x xs gbody)
+      | .ok (.opaque _) | .ok (.macro _) | .ok (.genfn _ _ _ _) | .ok (.lam _ _) => ⟨st, .dead, .err .typeError⟩
+      | .ok _ => ⟨st, .dead, .err .unmodelled⟩
+    | .genexp _ [] _ => ⟨st, .dead, .done⟩
+    | .genexp x (a :: as) gbody =>
+      -- `_ensure`: `next(stream)`, then `TEXT, str(item)` for an item that is no event tuple
+      match eval ([(x, .atom a)] :: st.ctx.frames) gbody with
+      | .error er => ⟨st, .dead, .err er⟩
+      | .ok (.atom v) => ⟨st, .genexp x as gbody, .item (.out (.text v.text false))⟩
+      | .ok _ => ⟨st, .dead, .err .unmodelled⟩
     | .withNew binds src rest =>
       match evalBinds (st.ctx.push []) binds with
       | .error (c', er) => ⟨{ st with ctx := c' }, .dead, .err er⟩
@@ -643,6 +709,10 @@ def flat (v : Variant) : Nat → Heap → St → Src → List It → FlatRes
       match t with
       | .out e => ⟨h1, st1, src1, stack1, .ev e⟩
       | .other => ⟨h1, st1, src1, stack1, .err .unmodelled⟩
+      | .execGen name x gsrc gbody =>
+        -- `_exec_suite`: `exec(code, globals, ctxt)` — the `def` statement stores the function with `ctxt[name] = …`
+        -- (`frames[0]`); nothing is yielded
+        flat v fuel h1 { st1 with ctx := st1.ctx.setTop name (.genfn name x gsrc gbody) } src1 stack1
       | .incl ti fb => ⟨h1, st1, src1, stack1, .incl ti fb⟩
       | .startI tag attrs =>
         match evalAttrs h1 st1.ph st1.ctx.frames attrs with
@@ -659,6 +729,10 @@ def flat (v : Variant) : Nat → Heap → St → Src → List It → FlatRes
         | .ok (.macro _) => ⟨h1, st1, src1, stack1, .err .unmodelled⟩
         | .ok (.gen0 m) => flat v fuel h1 st1 src1 (.macroNew m none :: stack1)
         | .ok (.gen1 m a) => flat v fuel h1 st1 src1 (.macroNew m (some a) :: stack1)
+        | .ok (.genx x items gbody) => flat v fuel h1 st1 src1 (.genexp x items gbody :: stack1)
+        | .ok (.genf x gsrc gbody) => flat v fuel h1 st1 src1 (.genfNew x gsrc gbody :: stack1)
+        | .ok (.genfn _ _ _ _) => ⟨h1, st1, src1, stack1, .err .unmodelled⟩     -- `str(function)` shows an address
+        | .ok (.lam _ _) => ⟨h1, st1, src1, stack1, .err .unmodelled⟩
       | .sub d b =>
         match readDirs h1 st1.ph d with
         | none => ⟨h1, st1, src1, stack1, .err .unmodelled⟩
@@ -803,7 +877,7 @@ structure PFrame where
   src : Src
   stack : List It
   mstart : Nat := 0
-  deriving Repr, Inhabited
+  deriving DecidableEq, Repr, Inhabited
 
 def srcOver (translator : Bool) (root : Ref) : Src :=
   if translator then .trans root 0 false 0 else .direct root 0
@@ -856,7 +930,7 @@ structure Render where
   ph : Heap
   frames : List PFrame
   live : Bool
-  deriving Repr, Inhabited
+  deriving DecidableEq, Repr, Inhabited
 
 /-- `Template.generate(**data)` on a prepared template: nothing runs before the first `next()` -/
 def Render.new (translator : Bool) (root : Nat) (data : Frame) : Render :=
